@@ -72,3 +72,37 @@ Qed.
 Example cyclic_array_new :
   render_val 3 self_array [(Some 5, "FSArray")] [] (VRef 1%N) = Ok (PList [PStr "FSArray"]).
 Proof. vm_compute. reflexivity. Qed.
+
+(* ---- open findings: the property as written, without the side premises of the sensitivity theorems, is false of the
+   CURRENT mechanism (known_findings.json: null_sentinel_string, view_of_sofaless_fs) ---- *)
+Definition rf_sch : schema :=
+  [mkTi "a.T" ["a.T"; "uima.cas.TOP"] [mkFd "s" "s" "uima.cas.String" None false]].
+Definition rf_views (m1 m2 : list oid) : list cview :=
+  [mkView (mkSofa 1 1 "_InitialView" (Some [97; 98]%N) None None None) m1;
+   mkView (mkSofa 2 2 "v2" (Some [99]%N) None None None) m2].
+Definition rf_f : fsobj := mkFs "a.T" (Some 7) [].
+Definition rf_rows (vs : list cview) (h : heap) : res (list row) :=
+  rows_of (fun _ _ => 0) isort (fun x => x) (fun s => "'" +++ s +++ "'") (mkOpts true true []) rf_sch vs h [1%N].
+
+(* a String feature holding the text "<NULL>" is rendered like an unset feature: a primitive value differs, the rows do not *)
+Theorem null_sentinel_refuted :
+  exists vs h x f n v',
+    unique_offsets_per_type h [x] = true /\ hget h x = Some f /\ slot f n = VNone /\ v' = VStr NULL /\ v' <> slot f n /\
+    rf_rows vs (hset h x (set_slot f n v')) = rf_rows vs h /\ exists R, rf_rows vs h = Ok R.
+Proof.
+  exists (rf_views [1%N] []), [(1%N, rf_f)], 1%N, rf_f, "s", (VStr NULL).
+  repeat split; try reflexivity; try discriminate. eexists. vm_compute. reflexivity.
+Qed.
+
+(* in which view a structure without a sofa feature is indexed does not show: the view differs, the rows do not *)
+Theorem view_of_sofaless_refuted :
+  exists h x vs vs',
+    unique_offsets_per_type h [x] = true /\
+    memN x (v_members (nth 0 vs (mkView (mkSofa 0 0 "" None None None None) []))) = true /\
+    memN x (v_members (nth 0 vs' (mkView (mkSofa 0 0 "" None None None None) []))) = false /\
+    memN x (v_members (nth 1 vs' (mkView (mkSofa 0 0 "" None None None None) []))) = true /\
+    rf_rows vs h = rf_rows vs' h /\ exists R, rf_rows vs h = Ok R.
+Proof.
+  exists [(1%N, rf_f)], 1%N, (rf_views [1%N] []), (rf_views [] [1%N]).
+  repeat split; try reflexivity. eexists. vm_compute. reflexivity.
+Qed.
